@@ -12,12 +12,21 @@
   * `delR_rk4_hermitian`, `delP_rk4_hermitian`   both RK4 moment integrators preserve Hermiticity exactly (4 sub-steps, any dt)
   * `hadamard_phase_hermitian`, `delR_exp_hermitian`  the exponential position-moment integrator preserves Hermiticity
   * `collapse_moments_zero`   after a collapse the moments are zero (and ρ is the pure active state: `C02.collapse_pure`)
+  Collapse rate and collapse loop (MudModel/Collapse.lean = `gamma_collapse` + the loop in `surface_hopping`):
+  * `gamma_active_zero`, `gamma_zero_of_equal_moments`, `gamma_formula` (with `sign_factor`: ddR·sign(ddR/ddP) = |ddR|·sign(ddP))
+  * `collapseScan_sound`, `collapseScan_nil_iff`   an event is recorded exactly for the visited states whose random
+                              number fell below their rate, with that state and rate in the event
+  * `otherStates_spec`, `otherStates_length`   the loop visits every state but the active one once, in index order: N−1 draws
+  * `no_collapse_of_nonpos`   no collapse while all rates ≤ 0 (e.g. zero moments) and random numbers ≥ 0
+  * `collapseStep_spec`, `collapse_gives_pure_active`   a collapse resets ρ to the pure ACTIVE state (valid, idempotent,
+                              trace one) and zeroes both moments; without an event nothing changes
   Partial (DESIGN §7 C11): Hermiticity of the exponential momentum-moment integrator (`delPexp`, a three-index
   expression) is not closed in Lean — it is checked on the implementation; agreement of the two integrators as dt→0
   is an asymptotic statement, tested numerically.
 -/
 import MudProof.Properties.C02
 import MudModel.AFSSH
+import MudModel.Collapse
 import Mathlib.Tactic
 
 namespace Mud.C11
@@ -188,5 +197,206 @@ theorem delR_exp_hermitian (eps : Fin N → ℝ) (co R P : Tab (Cx ℝ) N N) (dt
 /-- after a collapse the moments are identically zero -/
 theorem collapse_moments_zero (n : ℕ) : ∀ (x : Fin n) (i j : Fin N),
     (fun (_ : Fin n) (_ _ : Fin N) => (0 : ℂ)) x i j = 0 := fun _ _ _ => rfl
+
+/-! ### the collapse rate (`gamma_collapse`) and the collapse loop of `surface_hopping` -/
+
+section collapse
+variable {N n : ℕ}
+
+/-- the active state never collapses onto itself: its rate is zero -/
+theorem gamma_active_zero (k : Fin N) (R P : Fin n → Fin N → ℝ) (F : Fin N → Fin n → ℝ) (dt : ℝ) :
+    gammaCollapse k R P F dt k = 0 := by
+  simp [gammaCollapse]
+
+/-- `np.sign` at ℝ -/
+theorem sgn_real (x : ℝ) : sgn x = if 0 < x then 1 else if x < 0 then -1 else 0 := rfl
+
+theorem sgn_mul_self (x : ℝ) : x * sgn x = |x| := by
+  rw [sgn_real]
+  rcases lt_trichotomy 0 x with h | h | h
+  · simp [h, abs_of_pos h]
+  · subst h; simp
+  · simp [h, not_lt.mpr h.le, abs_of_neg h]
+
+/-- the sign factor: for a non-zero momentum difference, `ddR * sign(ddR/ddP) = |ddR| * sign(ddP)` -/
+theorem sign_factor (r p : ℝ) (hp : p ≠ 0) : r * sgn (r / p) = |r| * sgn p := by
+  rw [sgn_real, sgn_real]
+  rcases lt_trichotomy 0 p with hp' | hp' | hp'
+  · rcases lt_trichotomy 0 r with hr | hr | hr
+    · simp [hp', div_pos hr hp', abs_of_pos hr]
+    · subst hr; simp
+    · have : r / p < 0 := div_neg_of_neg_of_pos hr hp'
+      simp [hp', this, not_lt.mpr this.le, abs_of_neg hr]
+  · exact absurd hp'.symm hp
+  · rcases lt_trichotomy 0 r with hr | hr | hr
+    · have : r / p < 0 := div_neg_of_pos_of_neg hr hp'
+      simp [hp', not_lt.mpr hp'.le, this, not_lt.mpr this.le, abs_of_pos hr]
+    · subst hr; simp
+    · have : 0 < r / p := div_pos_of_neg_of_neg hr hp'
+      simp [hp', not_lt.mpr hp'.le, this, abs_of_neg hr]
+
+/-- **Eq. (55) as the code evaluates it**: for `i ≠ k` with non-zero momentum differences in every dimension
+    `gamma_i = (dt/2) Σ_x (F_k - F_i)_x |δR_k - δR_i|_x sign(δP_k - δP_i)_x` -/
+theorem gamma_formula (k i : Fin N) (hik : i ≠ k) (R P : Fin n → Fin N → ℝ) (F : Fin N → Fin n → ℝ) (dt : ℝ)
+    (hP : ∀ x, P x k - P x i ≠ 0) :
+    gammaCollapse k R P F dt i
+      = (1 / 2) * (∑ x, (F k x - F i x) * (|R x k - R x i| * sgn (P x k - P x i))) * dt := by
+  simp only [gammaCollapse, hik, if_false, vsum_eq_sum, frac_real]
+  congr 2
+  · norm_num
+  · apply Finset.sum_congr rfl
+    intro x _
+    have h0 : (0 : ℝ) < HasAbs.abs (P x k - P x i) := abs_pos.mpr (hP x)
+    simp only [h0, if_true]
+    rw [sign_factor _ _ (hP x)]
+
+/-- equal position moments (e.g. right after a collapse, or before any moment has built up) give rate zero -/
+theorem gamma_zero_of_equal_moments (k i : Fin N) (R P : Fin n → Fin N → ℝ) (F : Fin N → Fin n → ℝ) (dt : ℝ)
+    (hR : ∀ x, R x i = R x k) : gammaCollapse k R P F dt i = 0 := by
+  by_cases hik : i = k
+  · subst hik; exact gamma_active_zero _ _ _ _ _
+  · simp only [gammaCollapse, hik, if_false, vsum_eq_sum]
+    rw [Finset.sum_eq_zero]
+    · ring
+    · intro x _
+      rw [hR x]; simp
+
+/-! #### the collapse loop -/
+
+/-- every recorded collapse names a visited state, carries that state's rate, and was triggered by a random number
+    below the rate -/
+theorem collapseScan_sound (g : ℕ → ℝ) (is : List ℕ) (es : List ℝ) (ev : CollapseEvent ℝ)
+    (h : ev ∈ collapseScan g is es) :
+    ev.removed ∈ is ∧ ev.gamma = g ev.removed ∧ ∃ e ∈ es, e < g ev.removed := by
+  induction is generalizing es with
+  | nil => simp [collapseScan] at h
+  | cons i is ih =>
+    cases es with
+    | nil => simp [collapseScan] at h
+    | cons e es =>
+      simp only [collapseScan, List.mem_append] at h
+      rcases h with h | h
+      · by_cases he : e < g i
+        · simp only [he, if_true, List.mem_singleton] at h
+          subst h
+          exact ⟨by simp, rfl, e, by simp, he⟩
+        · simp [he] at h
+      · obtain ⟨a, b, e', he', hlt⟩ := ih es h
+        exact ⟨List.mem_cons_of_mem _ a, b, e', List.mem_cons_of_mem _ he', hlt⟩
+
+/-- completeness: nothing is recorded iff no visited state's random number fell below its rate -/
+theorem collapseScan_nil_iff (g : ℕ → ℝ) (is : List ℕ) (es : List ℝ) (hlen : is.length ≤ es.length) :
+    collapseScan g is es = [] ↔ ∀ p ∈ is.zip es, ¬ p.2 < g p.1 := by
+  induction is generalizing es with
+  | nil => simp [collapseScan]
+  | cons i is ih =>
+    cases es with
+    | nil => simp at hlen
+    | cons e es =>
+      simp only [List.length_cons, Nat.add_le_add_iff_right] at hlen
+      simp only [collapseScan, List.append_eq_nil_iff, List.zip_cons_cons, List.mem_cons, forall_eq_or_imp, ih es hlen]
+      constructor
+      · rintro ⟨h1, h2⟩
+        refine ⟨?_, h2⟩
+        intro hlt; simp [hlt] at h1
+      · rintro ⟨h1, h2⟩
+        exact ⟨by simp [h1], h2⟩
+
+/-- the loop never visits the active state, visits every other state once, in index order -/
+theorem otherStates_spec (N k : ℕ) : k ∉ otherStates N k ∧ (∀ i, i ∈ otherStates N k ↔ i < N ∧ i ≠ k)
+    ∧ (otherStates N k).Pairwise (· < ·) := by
+  refine ⟨by simp [otherStates], fun i => by simp [otherStates], ?_⟩
+  exact List.Pairwise.filter _ (List.pairwise_lt_range)
+
+private theorem filter_eq_singleton (N k : ℕ) (hk : k < N) :
+    (List.range N).filter (fun i => decide (i = k)) = [k] := by
+  induction N with
+  | zero => omega
+  | succ m ih =>
+    rw [List.range_succ, List.filter_append]
+    by_cases hm : k < m
+    · rw [ih hm]
+      have : ¬ m = k := by omega
+      simp [this]
+    · have hkm : k = m := by omega
+      subst hkm
+      have : (List.range k).filter (fun i => decide (i = k)) = [] := by
+        simp only [List.filter_eq_nil_iff, List.mem_range, decide_eq_true_eq]
+        intro a ha; omega
+      simp [this]
+
+/-- exactly one random number per other state -/
+theorem otherStates_length (N k : ℕ) (hk : k < N) : (otherStates N k).length = N - 1 := by
+  unfold otherStates
+  have h := List.length_eq_length_filter_add (l := List.range N) (fun i => decide (i ≠ k))
+  have hc : ((List.range N).filter (fun i => !decide (i ≠ k))).length = 1 := by
+    have : (fun i => !decide (i ≠ k)) = (fun i => decide (i = k)) := by funext i; simp
+    rw [this, filter_eq_singleton N k hk]; rfl
+  simp only [List.length_range] at h
+  omega
+
+/-- no collapse is possible while every rate is ≤ 0 and the random numbers are ≥ 0 (`Generator.random` ∈ [0,1)) -/
+theorem no_collapse_of_nonpos (g : ℕ → ℝ) (is : List ℕ) (es : List ℝ) (hg : ∀ i, g i ≤ 0) (he : ∀ e ∈ es, 0 ≤ e) :
+    collapseScan g is es = [] := by
+  by_contra hne
+  obtain ⟨ev, hev⟩ := List.exists_mem_of_ne_nil _ hne
+  obtain ⟨_, _, e, hemem, hlt⟩ := collapseScan_sound g is es ev hev
+  have := he e hemem
+  have := hg ev.removed
+  linarith
+
+/-- **the collapse step**: if anything was recorded the state is reset (ρ = the pure ACTIVE state handed in, both moments
+    zero), otherwise it is untouched; the events are those of the scan over the other states -/
+theorem collapseStep_spec {ρ μ : Type} (g : ℕ → ℝ) (N k : ℕ) (es : List ℝ) (pureK : ρ) (zero : μ) (s : CollapseState ρ μ) :
+    (collapseStep g N k es pureK zero s).2 = collapseScan g (otherStates N k) es ∧
+    ((collapseStep g N k es pureK zero s).2 ≠ [] →
+      (collapseStep g N k es pureK zero s).1.rho = pureK ∧ (collapseStep g N k es pureK zero s).1.delR = zero
+        ∧ (collapseStep g N k es pureK zero s).1.delP = zero) ∧
+    ((collapseStep g N k es pureK zero s).2 = [] → (collapseStep g N k es pureK zero s).1 = s) ∧
+    (∀ ev ∈ (collapseStep g N k es pureK zero s).2, ev.removed ≠ k ∧ ev.removed < N) := by
+  refine ⟨rfl, ?_, ?_, ?_⟩
+  · intro h
+    have h' : collapseScan g (otherStates N k) es ≠ [] := h
+    have : (collapseScan g (otherStates N k) es).isEmpty = false := by
+      cases hc : collapseScan g (otherStates N k) es with
+      | nil => exact absurd hc h'
+      | cons a l => rfl
+    simp [collapseStep, this]
+  · intro h
+    have h' : collapseScan g (otherStates N k) es = [] := h
+    simp [collapseStep, h']
+  · intro ev hev
+    have hev' : ev ∈ collapseScan g (otherStates N k) es := hev
+    have := (collapseScan_sound g _ es ev hev').1
+    have hs := (otherStates_spec N k).2.1 ev.removed
+    exact ⟨(hs.mp this).2, (hs.mp this).1⟩
+
+/-- with the model's ρ: after a collapse the density matrix is a valid pure state on the ACTIVE state
+    (`C02.collapse_pure`), whatever it was before -/
+theorem collapse_gives_pure_active {M : ℕ} (k : Fin M) (g : ℕ → ℝ) (es : List ℝ) (rho0 : Matrix (Fin M) (Fin M) ℂ) (μ0 : ℕ)
+    (hev : collapseScan g (otherStates M k.val) es ≠ []) :
+    let pureK : Matrix (Fin M) (Fin M) ℂ := Matrix.of (fun i j => if i = k ∧ j = k then 1 else 0)
+    let r := collapseStep g M k.val es pureK (0 : ℕ) ⟨rho0, μ0, μ0⟩
+    r.1.rho * r.1.rho = r.1.rho ∧ r.1.rho.IsHermitian ∧ r.1.rho.trace = 1 ∧ r.1.rho k k = 1 ∧ r.1.delR = 0 ∧ r.1.delP = 0 := by
+  intro pureK r
+  have h := (collapseStep_spec g M k.val es pureK (0 : ℕ) ⟨rho0, μ0, μ0⟩).2.1 hev
+  obtain ⟨h1, h2, h3⟩ := h
+  have hp := C02.collapse_pure k
+  simp only at hp
+  have hr : r.1.rho = pureK := h1
+  refine ⟨?_, ?_, ?_, ?_, h2, h3⟩
+  · rw [hr]; exact hp.1
+  · rw [hr]; exact hp.2.1
+  · rw [hr]; exact hp.2.2
+  · rw [hr]; simp [pureK]
+
+/-- non-vacuity: a two-state trajectory on state 0 with rate 2·… > random 1/2 collapses (one event, state 1 removed) -/
+example : (collapseScan (fun i => if i = 1 then (2 : ℝ) else 0) (otherStates 2 0) [1 / 2]).map (·.removed) = [1] := by
+  have : otherStates 2 0 = [1] := by decide
+  rw [this]
+  simp only [collapseScan]
+  norm_num
+
+end collapse
 
 end Mud.C11
